@@ -347,15 +347,18 @@ func compileAssignStmt(ctx *blockCtx, expr *ast.AssignStmt) {
 				}
 			}()
 		}
+		base := ctx.cb.InternalStack().Len()
 		for _, rhs := range expr.Rhs {
 			compileExpr(ctx, rhs, inFlags)
 		}
-		ctx.cb.EndInit(len(expr.Rhs))
+		// `x, y := f()?` leaves one value per result on the stack (the call is expanded in place)
+		ctx.cb.EndInit(ctx.cb.InternalStack().Len() - base)
 		return
 	}
 	for _, lhs := range expr.Lhs {
 		compileExprLHS(ctx, lhs)
 	}
+	base := ctx.cb.InternalStack().Len()
 	for i, rhs := range expr.Rhs {
 		switch e := unparen(rhs).(type) {
 		case *ast.LambdaExpr, *ast.LambdaExpr2:
@@ -386,7 +389,7 @@ func compileAssignStmt(ctx *blockCtx, expr *ast.AssignStmt) {
 		}
 	}
 	if tok == token.ASSIGN {
-		ctx.cb.AssignWith(len(expr.Lhs), len(expr.Rhs), expr)
+		ctx.cb.AssignWith(len(expr.Lhs), ctx.cb.InternalStack().Len()-base, expr)
 		return
 	}
 	if len(expr.Lhs) != 1 || len(expr.Rhs) != 1 {
